@@ -194,6 +194,7 @@ def run_scenario(scn, keep_world=False):
     rec.update(
         violations=w.violations,
         digest=w.digest(),
+        sem_digest=w.sem_digest(),
         n_events=w.n_events,
         n_calls=w.n_calls,
         n_valid=w.n_valid,
@@ -282,6 +283,16 @@ def _run(scn, w, rec, BADS):
                 "fun_eval_start", "random_seed")}
     install_instance_wrappers(w, b)
     w.ev("constructed", b.x0, b.u)
+    w.sem("x0", np.asarray(b.x0, float))
+    if scn.get("between"):
+        # process-history operations between construction and run (C07): executed
+        # outside the world so that their own activity is not monitored
+        from . import historyops
+        W.set_world(None)
+        try:
+            historyops.execute(scn["between"])
+        finally:
+            W.set_world(w)
     # ---------------- optimisation
     try:
         res = b.optimize()
@@ -301,6 +312,7 @@ def _run(scn, w, rec, BADS):
         rec["exc"]["tb"] = traceback.format_exc()[-2500:]
         rec["exc"]["is_injected"] = bool(w.calls and not w.calls[-1]["valid"])
         w.ev("exception", type(e).__name__, rec["exc"]["frame"])
+        w.sem("exception", type(e).__name__)
         _after_exception(scn, w, b, e, rec)
         return
     rec["outcome"] = "completed"
@@ -363,6 +375,7 @@ def _after_completed(scn, w, b, res, rec):
     )
     w.ev("result", np.asarray(res["x"], float), _f(res["fval"]), _f(res["fsd"]), int(res["func_count"]),
          res["message"])
+    w.sem("result", np.asarray(res["x"], float), _f(res["fval"]), _f(res["fsd"]), int(res["func_count"]), res["message"])
     _c01_hist(w, b, res)
     _c02_result(w, b, res)
     _c03_final(w, b, res, level)
